@@ -19,7 +19,7 @@ ASSUMPTIONS = [
     'elements are built like the estimators build them (DummyElement on the real piece parametrisation) and as leaves of real refined meshes',
     'references carry two resolutions; unconverged cases are counted as inconclusive cases',
 ]
-REQUIRED = {t: ['domain:UnitSquare', 'domain:PiSquare', 'domain:LShape', 'datum:one', 'datum:sine', 'time:starts-at-0', 'time:later', 'time:early-small',
+REQUIRED = {t: ['domain:UnitSquare', 'domain:PiSquare', 'domain:LShape', 'datum:one', 'datum:sine', 'time:starts-at-0', 'time:later', 'time:early-small', 'time:deep-near-zero',
                 'level>=4', 'rel:linearity', 'rel:additivity-time', 'rel:additivity-space', 'rel:direct-reference', 'fn:evaluate', 'fn:linform_vector',
                 'piece:long-side-half']
             for t in ('quick', 'thorough')}
@@ -193,6 +193,26 @@ def run_exact(spec, acc):
                 mine.insert(0, seg)
                 fixed_times[id(seg)] = (2.0**-11, 2.0**-10)
                 break
+    # very fine elements close to t = 0 (space level 11-13, time level 24-28): reached by meshes graded hard towards the initial time
+    pieces0 = [sg for sg in segs if sg[1] == 0]
+    for _ in range(3 if spec['lmax'] <= 5 else 10):
+        piece0, _, base = pieces0[rng.randrange(len(pieces0))]
+        a_, b_ = base
+        lv = rng.randint(11, 13)
+        for _bit in range(lv):
+            m_ = (a_ + b_) / 2
+            a_, b_ = (a_, m_) if rng.random() < 0.5 else (m_, b_)
+        deep = (piece0, lv, (a_, b_))
+        mine.append(deep)
+        hxd = b_ - a_
+        jmin = int(math.ceil(-math.log2(32 / (hxd * hxd)))) if hxd * hxd / 32 < 1 else 0
+        j = rng.randint(max(24, -jmin if False else 24), 28)
+        htd = 2.0**-j
+        if hxd * hxd / htd > 32:
+            htd = hxd * hxd / 32
+        kk = rng.choice([0, 1, 1, 2, 3])
+        fixed_times[id(deep)] = (kk * htd, (kk + 1) * htd)
+        acc.seen('time:deep-near-zero')
     for seg in mine:
         piece, l, xiv = seg
         hx = xiv[1] - xiv[0]
